@@ -690,6 +690,13 @@ def all_cases(tier='quick'):
     return cases, unclassified, norequest
 
 
+def _count(it):
+    out = {}
+    for x in it:
+        out[str(x)] = out.get(str(x), 0) + 1
+    return dict(sorted(out.items()))
+
+
 def _run_chunk(chunk):
     return [run_case(c) for c in chunk]
 
@@ -773,6 +780,10 @@ def check(tier, seed, procs):
         'insiders_served_2xx_or_app_redirect': served_insiders,
         'insider_requests_that_changed_the_store': changed_insiders,
         'non_http_exceptions': [list(e) for e in exceptions],
+        'outsider_refusals_by_kind': _count(r['refusal'] for r in rows if not r['may']),
+        'verdicts_per_class': {c: _count(('violation' if r['viol'] else 'outside-refused' if not r['may'] else 'inside-ok')
+                                         for r in rows if r['class'] == c) for c in sorted(by_class)},
+        'replayed_token_cases_where_the_api_showed_the_token': sum(1 for r in rows if r.get('token_shown_by_api')),
     }
     vac = None
     if len(table) < 40 or served_insiders < 100 or changed_insiders < 20 or by_verdict.get('outside: refused, state unchanged', 0) < 500:
